@@ -292,8 +292,14 @@ def licence_events(M, jp, jR, rnd, extra_pairs=4):
     return out
 
 
+def weak_hash_events(ctx):
+    """Run in the weak-hash interpreter (harness/weakhash.py): the diagram-level events, recorded where patterns share a few hash values."""
+    return cheap_events(ctx, util.rng(ctx, 1818), True)
+
+
 def run(ctx):
     quick = ctx.tier == "quick"
+    weak = util.weak_hash_start(ctx, "c18", "weak_hash_events")
     rnd = util.rng(ctx, 18)
     nsh = 16
     jobs = []
@@ -368,6 +374,7 @@ def run(ctx):
         rnd.shuffle(got)
         ev4 += got[:2]
     cheap = cheap_events(ctx, rnd, quick)
+    cheap += util.weak_hash_finish(ctx, weak, "c18")
     # validated in parallel chunks (each licence costs ~150 containment tests)
     chunks = [events[i::8] for i in range(8)]
     k = {"Mode": '"trace"', "MinMesh": 0, "MaxMesh": 0, "MaxPerm": 5, "Shard": 0, "NShards": 1, "Sample": "{}"}
